@@ -1345,8 +1345,9 @@ Proof.
   intros s op. unfold step0. destruct (crashed s); [intros; discriminate|].
   destruct op; try apply restart_run_once;
     intros H; exfalso; revert H; name_result; unfold ret; cases; leaf; try discriminate;
-    rewrite ?tls_out_app, ?(nt_tls_out _ (nt_connect_client _ _)), ?(nt_tls_out _ (nt_connect_component _ _)),
-      ?(nt_tls_out _ (nt_conn_disconnect _)); discriminate.
+    match goal with H : tls_out _ = true |- _ =>
+      rewrite ?tls_out_app, ?(nt_tls_out _ (nt_connect_client _ _)), ?(nt_tls_out _ (nt_connect_component _ _)),
+        ?(nt_tls_out _ (nt_conn_disconnect _)) in H; discriminate end.
 Qed.
 
 Theorem restart_ok : forall ops, check_run ok_restart init_state ops = true.
@@ -1357,4 +1358,325 @@ Proof.
   destruct (tls_out (snd (step0 s o))); [|reflexivity]. specialize (R eq_refl). cbn [negb orb].
   unfold note_outs. sproj. destruct (st (fst (step0 s o))) eqn:E; auto.
   destruct (R E) as [H|[H|[H1 H2]]]; rewrite ?H, ?H1, ?H2, ?orb_true_r; reflexivity.
+Qed.
+
+(* ================================================================== C03: ok_user *)
+Definition up (g : ghost) : bool := Nat.ltb 0 (g_connects g) || g_rawc g.
+Lemma up_note_outs : forall outs g, up (fold_left note_out outs g) = up g || has_conn outs.
+Proof.
+  induction outs as [|x outs IH]; intros g; cbn [fold_left has_conn existsb].
+  - rewrite orb_false_r; reflexivity.
+  - unfold has_conn in IH. rewrite IH.
+    assert (E : up (note_out g x) = up g || is_conn x).
+    { destruct g; destruct x as [| | | |[|]| | | | | | | | |]; unfold up; cbn; rewrite ?orb_false_r, ?orb_true_r; auto.
+      all: try (destruct g_connects; reflexivity). }
+    rewrite E, orb_assoc. reflexivity.
+Qed.
+Lemma has_conn_app : forall a b, has_conn (a ++ b) = has_conn a || has_conn b.
+Proof. intros; unfold has_conn; apply existsb_app. Qed.
+
+(* what holds of the current state s and the outputs o so far, b being "connected was reported before this step" *)
+Record UQ (b : bool) (g0 : ghost) (s : state) (o : list out) : Prop := mkUQ {
+  uq_scan : scan_user b o = true;
+  uq_nd : neg_done s = true -> b || has_conn o = true;
+  uq_u1 : U1 s;
+  uq_u2 : U2 s;
+  uq_gc : g_connects (gh s) = g_connects g0;
+  uq_gr : g_rawc (gh s) = g_rawc g0
+}.
+Lemma UQ_Tr : forall b g0 s o s' o', UQ b g0 s o -> Tr s s' o' -> U1 s' -> U2 s' -> UQ b g0 s' (o ++ o').
+Proof.
+  intros b g0 s o s' o' [] [] A B. constructor; auto.
+  - rewrite scan_user_app, uq_scan0. apply tr_user0. exact uq_nd0.
+  - intros N. rewrite has_conn_app, orb_assoc. destruct (tr_nd0 N) as [H|H]; [rewrite (uq_nd0 H)| rewrite H, orb_true_r]; reflexivity.
+  - destruct tr_fr0, fr_gh. congruence.
+  - destruct tr_fr0, fr_gh. congruence.
+Qed.
+
+Lemma scan_wires : forall b t q, (has_user q = true -> b = true) ->
+  scan_user b (map (fun x : welem * bool * bool => OWire t (fst (fst x))) q) = true /\
+  has_conn (map (fun x : welem * bool * bool => OWire t (fst (fst x))) q) = false.
+Proof.
+  induction q as [|x q IH]; intros H; [split; reflexivity|].
+  cbn [map]. unfold has_user in *. cbn [existsb] in H.
+  destruct IH as [A B]. { intros K. apply H. rewrite K. apply orb_true_r. }
+  split; [|exact B].
+  destruct (fst (fst x)) eqn:E; cbn [scan_user]; auto. cbn in H. specialize (H eq_refl). subst b. exact A.
+Qed.
+
+Lemma user_send_phase : forall b s, (neg_done s = true -> b = true) -> U1 s -> U2 s ->
+  UQ b (gh s) (fst (send_phase s)) (snd (send_phase s)).
+Proof.
+  intros b s Hb H1 H2. unfold send_phase, ret.
+  assert (Triv : UQ b (gh s) s []).
+  { constructor; auto. intros N; rewrite Hb; auto. }
+  destruct (st s) eqn:C; [exact Triv | exact Triv | ].
+  cbv zeta.
+  match goal with |- context [negb (err ?x =? 0)] => remember x as sa eqn:Ea end.
+  assert (F1 : neg_done sa = neg_done s) by (subst sa; reflexivity).
+  assert (F2 : gh sa = gh s) by (subst sa; reflexivity).
+  assert (F3 : sendq sa = []) by (subst sa; reflexivity).
+  assert (F4 : st sa = st s) by (subst sa; reflexivity).
+  clear Ea.
+  destruct (scan_wires b (tls_present s) (sendq s)) as [W1 W2].
+  { intros K. apply Hb. destruct (neg_done s) eqn:N; auto. rewrite (H1 C N) in K. discriminate. }
+  assert (Q0 : UQ b (gh s) sa (map (fun x : welem * bool * bool => OWire (tls_present s) (fst (fst x))) (sendq s))).
+  { constructor; auto.
+    - intros N. rewrite Hb; [reflexivity | congruence].
+    - intros _ _. rewrite F3. reflexivity.
+    - intros _. exact F3.
+    - congruence.
+    - congruence. }
+  destruct (negb (err sa =? 0)); [|exact Q0].
+  assert (Q1 : UQ b (gh s) (set_err ECONNABORTED sa) (map (fun x : welem * bool * bool => OWire (tls_present s) (fst (fst x))) (sendq s))).
+  { destruct Q0. constructor; auto with u1db u2db. }
+  pose proof (Tr_conn_disconnect _ _ _ (Tr_refl (set_err ECONNABORTED sa))) as T. cbn [app] in T.
+  pose proof (UQ_Tr _ _ _ _ _ _ Q1 T) as Q2.
+  destruct (conn_disconnect (set_err ECONNABORTED sa)) as [s2 o2] eqn:E. cbn [fst snd] in *.
+  apply Q2.
+  - replace s2 with (fst (conn_disconnect (set_err ECONNABORTED sa))) by (rewrite E; reflexivity).
+    destruct Q1; auto with u1db.
+  - replace s2 with (fst (conn_disconnect (set_err ECONNABORTED sa))) by (rewrite E; reflexivity).
+    destruct Q1; auto with u2db.
+Qed.
+
+Lemma U1_ph_watch : forall n s, U1 s -> U1 (fst (ph_watch n s)).
+Proof. intros; name_result; unfold ph_watch, ret; cases; leaf; eauto 30 with u1db. Qed.
+Lemma U2_ph_watch : forall n s, U2 s -> U2 (fst (ph_watch n s)).
+Proof. intros; name_result; unfold ph_watch, ret; cases; leaf; eauto 30 with u2db. Qed.
+Lemma U1_connecting_connected : forall s, U2 s -> st s = Connecting -> U1 (set_st Connected s).
+Proof.
+  intros s H C _ _. assert (E : sendq (set_st Connected s) = sendq s) by (destruct s; reflexivity).
+  rewrite E, (H C). reflexivity.
+Qed.
+Lemma U2_set_st_connected : forall s, U2 (set_st Connected s).
+Proof. intros [] C; cbn in C; discriminate. Qed.
+Lemma U1_ph_io : forall n s, U1 s -> U2 s -> U1 (fst (ph_io n s)).
+Proof.
+  intros n s H1 H2. name_result. unfold ph_io, ret.
+  destruct (st s) eqn:C; [leaf; auto | | cases; leaf; eauto 30 with u1db].
+  destruct (cur_ep s); cases; leaf; eauto 30 with u1db.
+  apply U1_conn_established. apply U1_connecting_connected; auto.
+Qed.
+Lemma U2_ph_io : forall n s, U2 s -> U2 (fst (ph_io n s)).
+Proof.
+  intros n s H2. name_result. unfold ph_io, ret.
+  destruct (st s) eqn:C; [leaf; auto | | cases; leaf; eauto 30 with u2db].
+  destruct (cur_ep s); cases; leaf; eauto 30 with u2db.
+  apply U2_conn_established. apply U2_set_st_connected.
+Qed.
+
+Lemma user_run_once : forall b n rd s, (neg_done s = true -> b = true) -> U1 s -> U2 s ->
+  UQ b (gh s) (fst (run_once n rd s)) (snd (run_once n rd s)).
+Proof.
+  intros b n rd s Hb H1 H2.
+  apply (run_once_ind (UQ b (gh s)) (UQ b (gh s)) (UQ b (gh s)) (UQ b (gh s)) (UQ b (gh s)) (UQ b (gh s)) (UQ b (gh s))); auto.
+  - intros _. constructor; cbn; auto. intros N; rewrite Hb; auto.
+  - intros _.
+    assert (E : gh s = gh (ph_pre rd s)) by (unfold ph_pre; cases; reflexivity). rewrite E.
+    apply user_send_phase; unfold ph_pre; cases; auto with u1db u2db.
+  - intros s1 o Q. unfold ph_reset. cases; auto. destruct Q; constructor; auto with u1db u2db.
+  - intros s1 o Q. pose proof (Tr_fire_timed n _ _ _ (Tr_refl s1)) as T. cbn [app] in T.
+    apply (UQ_Tr _ _ _ _ _ _ Q T); destruct Q; auto with u1db u2db.
+  - intros s1 o Q. pose proof (Tr_ph_watch n _ _ _ (Tr_refl s1)) as T. cbn [app] in T.
+    apply (UQ_Tr _ _ _ _ _ _ Q T); destruct Q; auto using U1_ph_watch, U2_ph_watch.
+  - intros s1 o Q. apply (UQ_Tr _ _ _ _ _ _ Q (Tr_quiet _ _ _ [OIter] (Tr_refl s1) eq_refl)); destruct Q; auto.
+  - intros s1 o Q. destruct (Tr_ph_io n s1 s1 [] (Tr_refl s1)) as [(C & E & Eq)|T].
+    + rewrite Eq.
+      assert (Q' : UQ b (gh s) (set_st Connected s1) o).
+      { destruct Q; constructor; auto using U1_connecting_connected, U2_set_st_connected. }
+      pose proof (Tr_conn_established n _ _ _ (Tr_refl (set_st Connected s1))) as T. cbn [app] in T.
+      apply (UQ_Tr _ _ _ _ _ _ Q' T); destruct Q'; auto with u1db u2db.
+    + cbn [app] in T. apply (UQ_Tr _ _ _ _ _ _ Q T); destruct Q; auto using U1_ph_io, U2_ph_io.
+  - intros s1 o Q. pose proof (Tr_fire_timed n _ _ _ (Tr_refl s1)) as T. cbn [app] in T.
+    apply (UQ_Tr _ _ _ _ _ _ Q T); destruct Q; auto with u1db u2db.
+  - intros s1 o Q. apply (UQ_Tr _ _ _ _ _ _ Q (Tr_quiet _ _ _ [OIter] (Tr_refl s1) eq_refl)); destruct Q; auto.
+Qed.
+
+(* what _conn_connect leaves behind when it runs (object disconnected) *)
+Record Fresh (s s1 : state) : Prop := mkFresh {
+  fre_nd : neg_done s1 = false;
+  fre_sendq : sendq s1 = [];
+  fre_st : st s1 = Connecting \/ st s1 = Disconnected;
+  fre_gh : st s1 = Connecting -> gh s1 = set_g_attempt true ghost0;
+  fre_gh' : st s1 = Disconnected -> gh s1 = gh s
+}.
+Lemma conn_connect_cases : forall n t s,
+  (st s <> Disconnected /\ conn_connect n t s = (s, [], XMPP_EINVOP)) \/
+  (st s = Disconnected /\ Fresh s (fst (fst (conn_connect n t s))) /\
+   forallb quiet (snd (fst (conn_connect n t s))) = true).
+Proof.
+  intros n t s. unfold conn_connect. destruct (st s) eqn:C; [right | left; split; [discriminate|reflexivity] ..].
+  split; [reflexivity|]. cbv zeta.
+  match goal with |- context [sock_connect ?c] => pose proof (quiet_sock_connect c) as Q; destruct (sock_connect c) as [oo [[k r]|]] end;
+    cbn [fst snd] in *; (split; [|exact Q]); unfold conn_reset, prepare_reset; rewrite C; cbv zeta;
+    constructor; sproj; auto; try discriminate; try reflexivity; try (intros; congruence).
+Qed.
+
+(* configuration-only changes (user setters, refused connects) *)
+Record Cfg (s s1 : state) : Prop := mkCfg {
+  cfg_st : st s1 = st s;
+  cfg_sendq : sendq s1 = sendq s;
+  cfg_nd : neg_done s1 = neg_done s;
+  cfg_gh : gh s1 = gh s;
+  cfg_handlers : handlers s1 = handlers s;
+  cfg_idhandlers : idhandlers s1 = idhandlers s;
+  cfg_timed : timed s1 = timed s;
+  cfg_sasl : sasl s1 = sasl s;
+  cfg_tls_support : tls_support s1 = tls_support s;
+  cfg_secured : secured s1 = secured s;
+  cfg_tls_present : tls_present s1 = tls_present s;
+  cfg_bind_required : bind_required s1 = bind_required s;
+  cfg_session_required : session_required s1 = session_required s;
+  cfg_comp_supported : comp_supported s1 = comp_supported s;
+  cfg_sm_support : sm_support s1 = sm_support s;
+  cfg_sm_bind_saved : sm_bind_saved s1 = sm_bind_saved s;
+  cfg_sm_enabled : sm_enabled s1 = sm_enabled s;
+  cfg_oh : oh s1 = oh s;
+  cfg_smq : smq s1 = smq s;
+  cfg_reset_parser : reset_parser s1 = reset_parser s
+}.
+Lemma Cfg_refl : forall s, Cfg s s.
+Proof. intros; constructor; auto. Qed.
+Lemma Cfg_set_flags : forall w s, Cfg s (fst (set_flags w s)).
+Proof. intros; name_result; unfold set_flags; cases; leaf; constructor; auto. Qed.
+
+Lemma Fresh_Cfg : forall s s' s1, Cfg s s' -> Fresh s' s1 -> Fresh s s1.
+Proof. intros s s' s1 [] []. constructor; auto. intros D. rewrite fre_gh'0; auto. Qed.
+
+Lemma Cfg_trans : forall a b c, Cfg a b -> Cfg b c -> Cfg a c.
+Proof. intros a b c [] []. constructor; congruence. Qed.
+Lemma conn_connect_cases' : forall n t s s',
+  Cfg s s' ->
+  (Cfg s (fst (fst (conn_connect n t s'))) /\ snd (fst (conn_connect n t s')) = []) \/
+  (Fresh s (fst (fst (conn_connect n t s'))) /\ forallb quiet (snd (fst (conn_connect n t s'))) = true).
+Proof.
+  intros n t s s' C. destruct (conn_connect_cases n t s') as [(A & ->)|(A & F & Q)]; [left | right].
+  - split; [exact C | reflexivity].
+  - split; [exact (Fresh_Cfg _ _ _ C F) | exact Q].
+Qed.
+Lemma connect_client_cases : forall n s,
+  (Cfg s (fst (fst (connect_client n s))) /\ snd (fst (connect_client n s)) = []) \/
+  (Fresh s (fst (fst (connect_client n s))) /\ forallb quiet (snd (fst (connect_client n s))) = true).
+Proof.
+  intros n s. unfold connect_client. cbv zeta.
+  destruct (negb (jid_set s) && cert_set s);
+    match goal with |- context [if ?c then _ else _] => destruct c end;
+    try (left; split; [constructor; reflexivity | reflexivity]);
+    apply conn_connect_cases'; constructor; reflexivity.
+Qed.
+Lemma connect_component_cases : forall n s,
+  (Cfg s (fst (fst (connect_component n s))) /\ snd (fst (connect_component n s)) = []) \/
+  (Fresh s (fst (fst (connect_component n s))) /\ forallb quiet (snd (fst (connect_component n s))) = true).
+Proof.
+  intros n s. unfold connect_component.
+  destruct (negb (jid_set s && pass_set s)); [left; split; [apply Cfg_refl | reflexivity]|].
+  cbv zeta.
+  match goal with |- context [set_flags ?w s] => pose proof (Cfg_set_flags w s) as C; destruct (set_flags w s) as [s1 rc] end.
+  cbn [fst] in C.
+  destruct (negb (f_tls_disabled s1)); [left; split; [exact C | reflexivity]|].
+  apply conn_connect_cases'. apply (Cfg_trans _ _ _ C). constructor; reflexivity.
+Qed.
+Definition IU (s : state) : Prop := (neg_done s = true -> up (gh s) = true) /\ U1 s /\ U2 s.
+
+Lemma UQ_start : forall s, IU s -> UQ (up (gh s)) (gh s) s [].
+Proof. intros s (A & B & C). constructor; auto. intros N. rewrite (A N). reflexivity. Qed.
+Lemma UQ_same : forall b g s o s', UQ b g s o -> neg_done s' = neg_done s -> gh s' = gh s -> U1 s' -> U2 s' -> UQ b g s' o.
+Proof.
+  intros b g s o s' [] A B C D. constructor; auto; try congruence.
+  intros N. apply uq_nd0. congruence.
+Qed.
+Lemma UQ_quiet : forall b g s o o', UQ b g s o -> forallb quiet o' = true -> UQ b g s (o ++ o').
+Proof.
+  intros b g s o o' Q H. apply (UQ_Tr _ _ _ _ _ _ Q (Tr_quiet _ _ _ o' (Tr_refl s) H)); destruct Q; auto.
+Qed.
+Lemma UQ_end : forall s s1 outs, UQ (up (gh s)) (gh s) s1 outs -> IU (note_outs outs s1).
+Proof.
+  intros s s1 outs []. unfold IU, note_outs. split; [|split].
+  - sproj. intros N. rewrite up_note_outs.
+    assert (E : up (gh s1) = up (gh s)) by (unfold up; congruence). rewrite E. auto.
+  - destruct s1; exact uq_u3.
+  - destruct s1; exact uq_u4.
+Qed.
+
+Lemma nd_h_add : forall k s, neg_done (h_add k s) = neg_done s. Proof. intros; unfold h_add; cases; reflexivity. Qed.
+Lemma nd_timed_add : forall k n s, neg_done (timed_add k n s) = neg_done s. Proof. intros; unfold timed_add; cases; reflexivity. Qed.
+Lemma gh_h_add : forall k s, gh (h_add k s) = gh s. Proof. intros; unfold h_add; cases; reflexivity. Qed.
+Lemma gh_timed_add : forall k n s, gh (timed_add k n s) = gh s. Proof. intros; unfold timed_add; cases; reflexivity. Qed.
+
+Lemma user_connect : forall s s1 o (rc : Z), IU s ->
+  (Cfg s s1 /\ o = [] \/ Fresh s s1 /\ forallb quiet o = true) ->
+  scan_user (up (gh s)) (o ++ [ORet rc]) = true /\ IU (note_outs (o ++ [ORet rc]) s1).
+Proof.
+  intros s s1 o rc I [(C & ->)|(F & Q)].
+  - split; [reflexivity|]. apply (UQ_end s). apply UQ_quiet; [|reflexivity].
+    pose proof (UQ_start s I) as Q0. destruct I as (I0 & I1 & I2). destruct C.
+    eapply UQ_same; [exact Q0 | auto | auto | | ].
+    + intros A B. rewrite cfg_sendq0. apply I1; congruence.
+    + intros A. rewrite cfg_sendq0. apply I2; congruence.
+  - assert (Q' : forallb quiet (o ++ [ORet rc]) = true) by (rewrite forallb_app, Q; reflexivity).
+    destruct (scan_user_quiet _ (up (gh s)) Q') as (A & B & _). split; [exact A|].
+    destruct F. unfold IU, note_outs. split; [|split].
+    + sproj. congruence.
+    + intros C1 _. revert C1. sproj. intros C1. destruct fre_st0; congruence.
+    + intros _. sproj. exact fre_sendq0.
+Qed.
+
+Lemma user_step0 : forall s op, IU s ->
+  scan_user (up (gh s)) (snd (step0 s op)) = true /\ IU (note_outs (snd (step0 s op)) (fst (step0 s op))).
+Proof.
+  intros s op I. pose proof (UQ_start s I) as Q0. destruct I as (I0 & I1 & I2).
+  assert (Fin : forall s1 outs, UQ (up (gh s)) (gh s) s1 outs ->
+                scan_user (up (gh s)) outs = true /\ IU (note_outs outs s1)).
+  { intros s1 outs Q. split; [apply Q | apply (UQ_end s); exact Q]. }
+  unfold step0. destruct (crashed s); [apply Fin; exact Q0|].
+  destruct op.
+  - (* OpSetFlags *) name_result. unfold set_flags. cases; leaf; apply Fin;
+      (apply (UQ_quiet _ _ _ [] [_]); [|reflexivity]); auto;
+      (eapply UQ_same; [exact Q0 | reflexivity | reflexivity | eauto 20 with u1db | eauto 20 with u2db]).
+  - cases; unfold ret; cbn [fst snd]; apply Fin; auto; (eapply UQ_same; [exact Q0 | reflexivity | reflexivity | eauto 20 with u1db | eauto 20 with u2db]).
+  - cases; unfold ret; cbn [fst snd]; apply Fin; auto; (eapply UQ_same; [exact Q0 | reflexivity | reflexivity | eauto 20 with u1db | eauto 20 with u2db]).
+  - cases; unfold ret; cbn [fst snd]; apply Fin; auto; (eapply UQ_same; [exact Q0 | reflexivity | reflexivity | eauto 20 with u1db | eauto 20 with u2db]).
+  - (* OpUserHandlers *)
+    cases; unfold ret; cbn [fst snd]; apply Fin; auto;
+      (eapply UQ_same; [exact Q0 | sproj; rewrite ?nd_timed_add, ?nd_h_add; reflexivity
+                        | sproj; rewrite ?gh_timed_add, ?gh_h_add; reflexivity | eauto 20 with u1db | eauto 20 with u2db]).
+  - cases; unfold ret; cbn [fst snd]; apply Fin; auto; (eapply UQ_same; [exact Q0 | reflexivity | reflexivity | eauto 20 with u1db | eauto 20 with u2db]).
+  - unfold ret; cbn [fst snd]; apply Fin; (eapply UQ_same; [exact Q0 | reflexivity | reflexivity | eauto 20 with u1db | eauto 20 with u2db]).
+  - (* OpConnectClient *)
+    pose proof (connect_client_cases now s) as K. destruct (connect_client now s) as [[s1 o] rc]. cbn [fst snd] in *.
+    apply user_connect; [repeat split; auto | exact K].
+  - (* OpConnectRaw *)
+    destruct (st s) eqn:C.
+    + pose proof (connect_client_cases now (set_is_raw true s)) as K.
+      destruct (connect_client now (set_is_raw true s)) as [[s1 o] rc]. cbn [fst snd] in *.
+      apply user_connect; [repeat split; auto | ].
+      assert (C0 : Cfg s (set_is_raw true s)) by (constructor; reflexivity).
+      destruct K as [(K1 & K2)|(K1 & K2)]; [left; split; [exact (Cfg_trans _ _ _ C0 K1) | exact K2]
+                                           | right; split; [exact (Fresh_Cfg _ _ _ C0 K1) | exact K2]].
+    + cbn [fst snd]. apply Fin. apply (UQ_quiet _ _ _ [] [_]); auto.
+    + cbn [fst snd]. apply Fin. apply (UQ_quiet _ _ _ [] [_]); auto.
+  - (* OpConnectComponent *)
+    pose proof (connect_component_cases now s) as K. destruct (connect_component now s) as [[s1 o] rc]. cbn [fst snd] in *.
+    apply user_connect; [repeat split; auto | exact K].
+  - (* OpRun *) apply Fin. apply user_run_once; auto.
+  - (* OpDisconnect *) unfold ret; cbn [fst snd]. apply Fin.
+    apply (UQ_Tr _ _ _ [] _ [] Q0); eauto with trdb u1db u2db. apply Tr_xmpp_disconnect, Tr_refl.
+  - (* OpSend *) unfold ret; cbn [fst snd]. apply Fin.
+    apply (UQ_Tr _ _ _ [] _ [] Q0); eauto with trdb u1db u2db. apply Tr_send_gated, Tr_refl.
+  - (* OpSendRaw *) unfold ret; cbn [fst snd]. apply Fin.
+    apply (UQ_Tr _ _ _ [] _ [] Q0); eauto with trdb u1db u2db. apply Tr_send_raw_m, Tr_refl.
+  - (* OpIs *) cbn [fst snd]. apply Fin. apply (UQ_quiet _ _ _ [] [_]); auto.
+  - (* OpOpenStream *) cases; unfold ret; cbn [fst snd]; apply Fin; auto.
+    apply (UQ_Tr _ _ _ [] _ [] Q0); eauto 10 with trdb u1db u2db. apply Tr_conn_open_stream, Tr_prepare_reset, Tr_refl.
+  - (* OpRelease *) cases; unfold ret; cbn [fst snd]; try (apply Fin; exact Q0).
+    all: apply Fin; apply (UQ_Tr _ _ _ [] _ _ Q0 (Tr_conn_disconnect _ _ _ (Tr_refl s))); auto with u1db u2db.
+Qed.
+
+Theorem user_ok : forall ops, check_run ok_user init_state ops = true.
+Proof.
+  intros ops. apply (check_run_inv ok_user IU).
+  - intros s o I. rewrite step_eq. cbn [fst]. apply (user_step0 s o I).
+  - intros s o I. rewrite step_eq. cbn [fst snd]. unfold ok_user. apply (user_step0 s o I).
+  - unfold IU, U1, U2. cbn. repeat split; intros; discriminate.
 Qed.
